@@ -1,1 +1,361 @@
-import PQ.Model.Pool
+import PQ.Lemmas.Pool
+/-!
+# C13 — output depends only on an instance's own history; instances do not interfere
+
+Model: `PQ.Model.Pool` (one shared pool of buffers with arbitrary stale contents, instances running
+`get · fill · emit · put` programs, arbitrary interleavings, arbitrary choice of the pooled buffer
+a `Get` receives).  After `put` the instance's local variable *still points at the buffer* — so the
+model can express use-after-Put, and the discipline `WellBracketed` is a real hypothesis.
+
+* `interleaving_indep` — in a well-formed world (any heap contents, any pool of distinct allocated
+  ids, every instance holding nothing and following the discipline), after **every** schedule
+  prefix, instance `i`'s remaining program is its own program minus one step per turn it got, its
+  output is a prefix of `out₀ ++ seqOut prog_i`, and equals it once its program is exhausted.
+  Nothing on the right-hand side mentions the other instances, the schedule, the `pickFree`
+  choices, or the initial heap/pool.
+* `interleaving_indep_complete`, `all_outputs_complete` — the same for schedules that run every
+  program to completion; `exists_complete_schedule` — such schedules exist (non-vacuity).
+* `output_indep_pool` — same program in two different worlds/schedules ⇒ same output.
+* `put_before_emit_breaks` — without the discipline the statement is false (counter-example).
+* `encodeInto_indep` — stale bytes exposed by reslicing a pooled buffer never reach the output.
+* `pageProgram_wellBracketed`, `pageProgram_seqOut` — the page-write program follows the
+  discipline and hands the compressed payload to the sink.
+* `pool_sites_paired` … — inventories regenerated from the Go source.
+-/
+namespace PQ.C13
+open PQ.Pool
+
+/-! ## 1. interleaving independence -/
+
+/-- **Every schedule prefix.**  For a well-formed world `w` (arbitrary stale heap, arbitrary pool)
+and any schedule, instance `i` is still there, has executed exactly `turns i sched` steps of its
+own program, has emitted a prefix of what it emits when run alone on an empty pool, and has
+emitted exactly that once its program is exhausted. -/
+theorem interleaving_indep (w : World) (hwf : w.WF) (sched : List (Nat × Nat)) (i : Nat) (inst : Inst)
+    (hi : w.insts[i]? = some inst) :
+    ∃ inst', (w.run sched).insts[i]? = some inst' ∧
+      inst'.prog = inst.prog.drop (turns i sched) ∧
+      inst'.out <+: inst.out ++ seqOut inst.prog ∧
+      (inst'.prog = [] → inst'.out = inst.out ++ seqOut inst.prog) := by
+  obtain ⟨_, _, h⟩ := run_ok sched hwf.inv
+  obtain ⟨inst', h1, h2, h3⟩ := h i inst hi
+  have hm : inst ∈ w.insts := List.mem_of_getElem? hi
+  have hwb : WellBracketed inst.prog [] = true := hwf.wb inst hm
+  rw [pending_of_wf hwf hm (fun _ => []), ← seqOut_eq_outOf inst.prog hwb (fun _ => [])] at h2
+  refine ⟨inst', h1, h3, ⟨_, h2⟩, fun hnil => ?_⟩
+  unfold pending at h2
+  rw [hnil] at h2
+  simpa [outOf] using h2
+
+/-- a schedule that gives instance `i` at least as many turns as its program has steps makes it
+emit exactly `seqOut` of its own program — whatever else is in the schedule -/
+theorem interleaving_indep_turns (w : World) (hwf : w.WF) (sched : List (Nat × Nat)) (i : Nat) (inst : Inst)
+    (hi : w.insts[i]? = some inst) (hturns : inst.prog.length ≤ turns i sched) :
+    ∃ inst', (w.run sched).insts[i]? = some inst' ∧ inst'.prog = [] ∧
+      inst'.out = inst.out ++ seqOut inst.prog := by
+  obtain ⟨inst', h1, h2, _, h4⟩ := interleaving_indep w hwf sched i inst hi
+  have hnil : inst'.prog = [] := by rw [h2]; exact List.drop_of_length_le hturns
+  exact ⟨inst', h1, hnil, h4 hnil⟩
+
+/-- **Complete schedules.**  If the schedule runs every program to completion, every instance's
+output is `seqOut` of its own program (appended to what it had emitted before). -/
+theorem interleaving_indep_complete (w : World) (hwf : w.WF) (sched : List (Nat × Nat))
+    (hdone : ∀ inst' ∈ (w.run sched).insts, inst'.prog = []) (i : Nat) (inst : Inst)
+    (hi : w.insts[i]? = some inst) :
+    ∃ inst', (w.run sched).insts[i]? = some inst' ∧ inst'.out = inst.out ++ seqOut inst.prog := by
+  obtain ⟨inst', h1, _, _, h4⟩ := interleaving_indep w hwf sched i inst hi
+  exact ⟨inst', h1, h4 (hdone inst' (List.mem_of_getElem? h1))⟩
+
+/-- all outputs at once, as one list equation -/
+theorem all_outputs_complete (w : World) (hwf : w.WF) (sched : List (Nat × Nat))
+    (hdone : ∀ inst' ∈ (w.run sched).insts, inst'.prog = []) :
+    (w.run sched).insts.map (·.out) = w.insts.map (fun x => x.out ++ seqOut x.prog) := by
+  apply List.ext_getElem?
+  intro j
+  simp only [List.getElem?_map]
+  cases hj : w.insts[j]? with
+  | none =>
+    have hlen := (run_ok sched hwf.inv).2.1
+    have : (w.run sched).insts[j]? = none := by
+      rw [List.getElem?_eq_none_iff] at hj ⊢
+      rw [hlen]; exact hj
+    rw [this]; rfl
+  | some inst =>
+    obtain ⟨inst', h1, h2⟩ := interleaving_indep_complete w hwf sched hdone j inst hj
+    rw [h1]; simp only [Option.map_some, h2]
+
+/-- complete schedules exist for every well-formed world (so the theorems above are not vacuous) -/
+theorem exists_complete_schedule (w : World) (hwf : w.WF) :
+    ∃ sched, ∀ inst' ∈ (w.run sched).insts, inst'.prog = [] := by
+  refine ⟨blocks (maxLen w.insts) (List.range w.insts.length), ?_⟩
+  intro inst' hm
+  obtain ⟨j, hj⟩ := List.mem_iff_getElem?.1 hm
+  obtain ⟨_, hlen, h⟩ := run_ok (blocks (maxLen w.insts) (List.range w.insts.length)) hwf.inv
+  have hjlt : j < w.insts.length := by
+    rw [← hlen]
+    cases hlt : Nat.decLt j (w.run (blocks (maxLen w.insts) (List.range w.insts.length))).insts.length with
+    | isTrue p => exact p
+    | isFalse p => rw [List.getElem?_eq_none (Nat.le_of_not_lt p)] at hj; cases hj
+  obtain ⟨inst'', h1, _, h3⟩ := h j w.insts[j] (List.getElem?_eq_getElem hjlt)
+  rw [hj] at h1; cases h1
+  rw [h3]
+  apply List.drop_of_length_le
+  exact Nat.le_trans (le_maxLen (List.getElem_mem hjlt))
+    (turns_blocks _ _ j (List.mem_range.2 hjlt))
+
+/-- every prefix of a disciplined history is a disciplined history (so the theorems above apply to
+an instance observed at any point of its life: take the steps it has performed so far as `prog`) -/
+theorem wellBracketed_take : ∀ (prog : List Step) (held : List Nat) (n : Nat),
+    WellBracketed prog held = true → WellBracketed (prog.take n) held = true
+  | [], _, _, _ => by simp [WellBracketed]
+  | _ :: _, _, 0, _ => by simp [WellBracketed]
+  | .get s :: rest, held, n + 1, h => by
+    simp only [WellBracketed, Bool.and_eq_true, List.take_succ_cons] at h ⊢
+    exact ⟨h.1, wellBracketed_take rest _ n h.2⟩
+  | .fill s d :: rest, held, n + 1, h => by
+    simp only [WellBracketed, Bool.and_eq_true, List.take_succ_cons] at h ⊢
+    exact ⟨h.1, wellBracketed_take rest _ n h.2⟩
+  | .emit s :: rest, held, n + 1, h => by
+    simp only [WellBracketed, Bool.and_eq_true, List.take_succ_cons] at h ⊢
+    exact ⟨h.1, wellBracketed_take rest _ n h.2⟩
+  | .put s :: rest, held, n + 1, h => by
+    simp only [WellBracketed, Bool.and_eq_true, List.take_succ_cons] at h ⊢
+    exact ⟨h.1, wellBracketed_take rest _ n h.2⟩
+
+/-! ### exclusive access (why treating a step as atomic is sound) -/
+
+/-- the buffer the instance's next step reads, writes or returns to the pool -/
+def accesses (inst : Inst) : Option BufId :=
+  match inst.prog with
+  | .fill s _ :: _ => inst.slots.lookup s
+  | .emit s :: _ => inst.slots.lookup s
+  | .put s :: _ => inst.slots.lookup s
+  | _ => none
+
+theorem access_own {w : World} {hs} (hI : Inv w hs) {i : Nat} {inst : Inst} {b : BufId}
+    (hi : w.insts[i]? = some inst) (ha : accesses inst = some b) : ∃ s, Own w hs i s b := by
+  have hwb := hI.wb i inst hi
+  unfold accesses at ha
+  cases hp : inst.prog with
+  | nil => rw [hp] at ha; cases ha
+  | cons st rest =>
+    rw [hp] at ha hwb
+    cases st with
+    | get s => cases ha
+    | fill s d =>
+      simp only [WellBracketed, Bool.and_eq_true, contains_eq_true] at hwb
+      exact ⟨s, inst, hi, hwb.1, ha⟩
+    | emit s =>
+      simp only [WellBracketed, Bool.and_eq_true, contains_eq_true] at hwb
+      exact ⟨s, inst, hi, hwb.1, ha⟩
+    | put s =>
+      simp only [WellBracketed, Bool.and_eq_true, contains_eq_true] at hwb
+      exact ⟨s, inst, hi, hwb.1, ha⟩
+
+/-- **No conflicting accesses, at any point of any schedule.**  If the next steps of instances `i`
+and `j` touch the same buffer then `i = j`; and that buffer is not in the pool, so no concurrent
+`Get` can hand it out.  (Two enabled steps of different instances therefore commute on the heap:
+the model's atomic steps do not hide a data race on buffer contents.) -/
+theorem no_conflicting_access (w : World) (hwf : w.WF) (sched : List (Nat × Nat)) (i j : Nat)
+    (insti instj : Inst) (b : BufId)
+    (hi : (w.run sched).insts[i]? = some insti) (hj : (w.run sched).insts[j]? = some instj)
+    (hai : accesses insti = some b) (haj : accesses instj = some b) :
+    i = j ∧ b ∉ (w.run sched).free := by
+  obtain ⟨⟨hs', hI⟩, _, _⟩ := run_ok sched hwf.inv
+  obtain ⟨s, hs⟩ := access_own hI hi hai
+  obtain ⟨t, ht⟩ := access_own hI hj haj
+  exact ⟨(hI.own_inj i j s t b hs ht).1, hI.own_nfree i s b hs⟩
+
+/-! ## 2. repeating a history gives identical output -/
+
+/-- the same program (and the same output so far) in two different well-formed worlds — different
+stale heap contents, different pools, different other instances — under two different schedules
+that both exhaust it: byte-identical output -/
+theorem output_indep_pool (w₁ w₂ : World) (hwf₁ : w₁.WF) (hwf₂ : w₂.WF)
+    (sched₁ sched₂ : List (Nat × Nat)) (i₁ i₂ : Nat) (inst₁ inst₂ r₁ r₂ : Inst)
+    (h₁ : w₁.insts[i₁]? = some inst₁) (h₂ : w₂.insts[i₂]? = some inst₂)
+    (hprog : inst₁.prog = inst₂.prog) (hout : inst₁.out = inst₂.out)
+    (hr₁ : (w₁.run sched₁).insts[i₁]? = some r₁) (hr₂ : (w₂.run sched₂).insts[i₂]? = some r₂)
+    (hd₁ : r₁.prog = []) (hd₂ : r₂.prog = []) :
+    r₁.out = r₂.out := by
+  obtain ⟨x₁, hx₁, _, _, e₁⟩ := interleaving_indep w₁ hwf₁ sched₁ i₁ inst₁ h₁
+  obtain ⟨x₂, hx₂, _, _, e₂⟩ := interleaving_indep w₂ hwf₂ sched₂ i₂ inst₂ h₂
+  rw [hr₁] at hx₁; cases hx₁
+  rw [hr₂] at hx₂; cases hx₂
+  rw [e₁ hd₁, e₂ hd₂, hprog, hout]
+
+/-- before completion: both outputs are prefixes of the same byte string -/
+theorem output_indep_pool_prefix (w₁ w₂ : World) (hwf₁ : w₁.WF) (hwf₂ : w₂.WF)
+    (sched₁ sched₂ : List (Nat × Nat)) (i₁ i₂ : Nat) (inst₁ inst₂ r₁ r₂ : Inst)
+    (h₁ : w₁.insts[i₁]? = some inst₁) (h₂ : w₂.insts[i₂]? = some inst₂)
+    (hprog : inst₁.prog = inst₂.prog) (hout : inst₁.out = inst₂.out)
+    (hr₁ : (w₁.run sched₁).insts[i₁]? = some r₁) (hr₂ : (w₂.run sched₂).insts[i₂]? = some r₂) :
+    r₁.out <+: inst₁.out ++ seqOut inst₁.prog ∧ r₂.out <+: inst₁.out ++ seqOut inst₁.prog := by
+  obtain ⟨x₁, hx₁, _, p₁, _⟩ := interleaving_indep w₁ hwf₁ sched₁ i₁ inst₁ h₁
+  obtain ⟨x₂, hx₂, _, p₂, _⟩ := interleaving_indep w₂ hwf₂ sched₂ i₂ inst₂ h₂
+  rw [hr₁] at hx₁; cases hx₁
+  rw [hr₂] at hx₂; cases hx₂
+  rw [hprog, hout]
+  exact ⟨by rw [← hprog, ← hout]; exact p₁, p₂⟩
+
+/-! ## 3. the discipline is needed -/
+
+/-- a writer that returns its buffer to the pool *before* handing it to the sink -/
+def badProg : List Step := [.get 0, .fill 0 [1, 2, 3], .put 0, .emit 0]
+/-- a disciplined writer -/
+def goodProg : List Step := [.get 0, .fill 0 [9, 9], .emit 0, .put 0]
+
+def badWorld : World := { heap := [], free := [], next := 0, insts := [{ prog := badProg }, { prog := goodProg }] }
+
+/-- instance 0 gets/fills/puts, instance 1 gets the same buffer and fills it, then instance 0 emits -/
+def badSched : List (Nat × Nat) := [(0, 0), (0, 0), (0, 0), (1, 0), (1, 0), (0, 0), (1, 0), (1, 0)]
+
+/-- **Counter-example.**  `badProg` is not well-bracketed; alone it emits its own bytes `[1,2,3]`;
+next to a disciplined instance, under `badSched`, it emits the *other* instance's bytes `[9,9]`.
+Everything else about the world is well-formed (empty pool, nothing held, complete schedule). -/
+theorem put_before_emit_breaks :
+    WellBracketed badProg [] = false ∧
+    WellBracketed goodProg [] = true ∧
+    seqOut badProg = [1, 2, 3] ∧
+    (badWorld.run badSched).insts.map (·.prog.length) = [0, 0] ∧
+    (badWorld.run badSched).insts.map (·.out) = [[9, 9], [9, 9]] := by
+  decide
+
+/-- the same two programs with the `put` moved after the `emit`: no interference under the same
+schedule -/
+example :
+    let w : World := { heap := [], free := [], next := 0, insts := [{ prog := [.get 0, .fill 0 [1, 2, 3], .emit 0, .put 0] }, { prog := goodProg }] }
+    (w.run badSched).insts.map (·.out) = [[1, 2, 3], [9, 9]] := by
+  decide
+
+/-! ## 4. stale capacity of a resliced pooled buffer -/
+
+/-- the stale contents a pooled buffer exposes when `compress` reslices it to the maximum encoded
+length never reach the output -/
+theorem encodeInto_indep (stale : Bytes) (cap : Nat) (enc : Bytes) (_h : enc.length ≤ cap) :
+    encodeInto stale cap enc = enc := by
+  unfold encodeInto
+  exact List.take_left'  rfl
+
+/-- two different stale buffers, same output -/
+theorem encodeInto_indep₂ (stale₁ stale₂ : Bytes) (cap : Nat) (enc : Bytes) (h : enc.length ≤ cap) :
+    encodeInto stale₁ cap enc = encodeInto stale₂ cap enc := by
+  rw [encodeInto_indep stale₁ cap enc h, encodeInto_indep stale₂ cap enc h]
+
+/-- non-vacuity: the resliced buffer really holds stale bytes beyond the encoder's output -/
+example :
+    let stale : Bytes := [0xAA, 0xAA, 0xAA, 0xAA, 0xAA, 0xAA]
+    let enc : Bytes := [1, 2, 3]
+    (enc ++ ((stale ++ List.replicate (5 - stale.length) 0).take 5).drop enc.length) = [1, 2, 3, 0xAA, 0xAA] ∧
+    encodeInto stale 5 enc = [1, 2, 3] := by
+  decide
+
+/-! ## 5. the page-write program -/
+
+theorem pageProgram_wellBracketed (vals lv comp hdr : Bytes) (optional : Bool) :
+    WellBracketed (pageProgram vals lv comp hdr optional) [] = true := by
+  cases optional <;> rfl
+
+/-- the payload the sink receives is the compressed buffer's contents -/
+theorem pageProgram_seqOut (vals lv comp hdr : Bytes) (optional : Bool) :
+    seqOut (pageProgram vals lv comp hdr optional) = comp := by
+  rw [seqOut_eq_outOf _ (pageProgram_wellBracketed vals lv comp hdr optional) (fun _ => [])]
+  cases optional <;> simp [pageProgram, outOf, upd]
+
+/-- hence: a page write inside any well-formed world, under any schedule that lets it finish,
+appends exactly `comp` to its sink -/
+theorem pageProgram_indep (w : World) (hwf : w.WF) (sched : List (Nat × Nat)) (i : Nat) (inst : Inst)
+    (vals lv comp hdr : Bytes) (optional : Bool)
+    (hi : w.insts[i]? = some inst) (hp : inst.prog = pageProgram vals lv comp hdr optional)
+    (hturns : inst.prog.length ≤ turns i sched) :
+    ∃ inst', (w.run sched).insts[i]? = some inst' ∧ inst'.out = inst.out ++ comp := by
+  obtain ⟨inst', h1, _, h3⟩ := interleaving_indep_turns w hwf sched i inst hi hturns
+  exact ⟨inst', h1, by rw [h3, hp, pageProgram_seqOut]⟩
+
+/-- the UNCOMPRESSED variants: `compress` returns its input slice, so the sink receives the bytes
+of the *input* buffer (`Write`'s buffer for a required field, the levels+values buffer for an
+optional one) while the `compressed` buffer is taken and returned unused -/
+def pageProgramUncompressed (vals levelsAndVals : Bytes) (optional : Bool) : List Step :=
+  [.get 0, .fill 0 vals] ++
+  (if optional then [.get 1, .fill 1 levelsAndVals, .get 2, .emit 1, .put 2, .put 1]
+   else [.get 1, .emit 0, .put 1]) ++ [.put 0]
+
+theorem pageProgramUncompressed_wellBracketed (vals lv : Bytes) (optional : Bool) :
+    WellBracketed (pageProgramUncompressed vals lv optional) [] = true := by
+  cases optional <;> rfl
+
+theorem pageProgramUncompressed_seqOut (vals lv : Bytes) (optional : Bool) :
+    seqOut (pageProgramUncompressed vals lv optional) = if optional then lv else vals := by
+  rw [seqOut_eq_outOf _ (pageProgramUncompressed_wellBracketed vals lv optional) (fun _ => [])]
+  cases optional <;> simp [pageProgramUncompressed, outOf, upd]
+
+/-- an error return before the sink write (`compress`/`WritePageHeader` fail): the deferred `Put`s
+still run, nothing is emitted -/
+theorem errorPath_wellBracketed_seqOut (vals lv : Bytes) :
+    WellBracketed [.get 0, .fill 0 vals, .get 1, .fill 1 lv, .get 2, .put 2, .put 1, .put 0] [] = true ∧
+    seqOut [.get 0, .fill 0 vals, .get 1, .fill 1 lv, .get 2, .put 2, .put 1, .put 0] = [] := by
+  have h : WellBracketed [.get 0, .fill 0 vals, .get 1, .fill 1 lv, .get 2, .put 2, .put 1, .put 0] [] = true := rfl
+  exact ⟨h, by rw [seqOut_eq_outOf _ h (fun _ => [])]; simp [outOf]⟩
+
+/-! ## 6. inventories regenerated from the Go source -/
+
+/-- every function that calls `buffpool.Get` defers exactly as many `buffpool.Put`s and never lets
+a pooled buffer escape (return it / store it in a field) -/
+theorem pool_sites_paired :
+    (Gen.Facts.poolSiteList.all fun s => s.gets == s.deferPuts && s.contained) = true := by decide
+
+theorem pool_sites_nonempty : Gen.Facts.poolSiteList.isEmpty = false := by decide
+
+/-- no function takes more buffers than `pageProgram` models (1 in the typed `Write`, ≤ 2 in `DoWrite`) -/
+theorem pool_sites_at_most_two : (Gen.Facts.poolSiteList.all fun s => s.gets ≤ 2) = true := by decide
+
+/-- only writers touch the pools: every `buffpool.Get` site is a typed `Write` or a `DoWrite`;
+readers (`Read`/`DoRead`/`Scan`) share no buffer with anybody -/
+theorem pool_sites_are_writers :
+    (Gen.Facts.poolSiteList.all fun s => s.fn ∈ ["TPL.Write", "StringField.Write", "StringOptionalField.Write", "OptionalField.DoWrite", "RequiredField.DoWrite"]) = true := by
+  decide
+
+/-- the package-level variables of the library and of the generated code are exactly: the two
+buffer pools (modelled here), the constant magic `par1`, the constant table `fieldFuncs` and a
+blank import guard — there is no other process-wide state through which instances could interact -/
+theorem global_vars_inventory :
+    Gen.Facts.globalVars = ["cmd/parquetgen/gen/template.go#tpl:_", "cmd/parquetgen/gen/template.go#tpl:buffpool", "cmd/parquetgen/gen/template.go#tpl:par1", "fields.go:buffpool", "parquet.go:fieldFuncs"] := by
+  decide
+
+/-! ## examples: three instances, stale heap and pool, interleaved schedule -/
+
+def exA : List Step := pageProgram [1, 1] [] [10, 11, 12] [] false
+def exB : List Step := pageProgram [2, 2] [7, 2, 2] [20, 21] [] true
+def exC : List Step := [.get 5, .fill 5 [30], .emit 5, .fill 5 [31, 32], .emit 5, .put 5, .get 5, .emit 5, .put 5]
+
+/-- a world with garbage in the heap and three stale buffers in the pool -/
+def exWorld : World :=
+  { heap := [(0, [0xAA, 0xAA]), (1, [0xFF]), (2, [0xAA, 0xFF, 0x00]), (7, [0xEE])],
+    free := [2, 0, 1], next := 3,
+    insts := [{ prog := exA }, { prog := exB }, { prog := exC, out := [99] }] }
+
+def exSched : List (Nat × Nat) :=
+  [(0, 5), (1, 1), (2, 0), (1, 4), (0, 2), (2, 1), (2, 7), (1, 0), (0, 3), (0, 0), (1, 1), (2, 2),
+   (1, 3), (1, 0), (0, 1), (2, 0), (0, 0), (1, 2), (2, 5), (1, 1), (2, 4), (0, 6), (1, 0), (2, 3),
+   (1, 0), (2, 0), (1, 0), (7, 0), (0, 0)]
+
+example : exWorld.WF := by
+  constructor
+  · decide
+  · decide
+  · decide
+  · decide
+
+example : (exWorld.run exSched).insts.map (·.prog.length) = [0, 0, 0] := by decide
+
+example : (exWorld.run exSched).insts.map (·.out) = [[10, 11, 12], [20, 21], [99, 30, 31, 32]] := by decide
+
+example : [seqOut exA, seqOut exB, seqOut exC] = [[10, 11, 12], [20, 21], [30, 31, 32]] := by decide
+
+/-- a different schedule (sequential, other pool choices), another initial pool: same outputs -/
+example :
+    let w : World := { exWorld with heap := [], free := [], next := 0 }
+    (w.run (blocks 12 [2, 1, 0])).insts.map (·.out) = [[10, 11, 12], [20, 21], [99, 30, 31, 32]] := by
+  decide
+
+end PQ.C13
